@@ -14,7 +14,7 @@ Theorem C02_groups_follow_reference :
   (N.of_nat (length (concat cs)) < usize_max)%N ->
   bnd cs (c_pos cx) ->
   forall (bs : N -> bool) (e : expr) (p : prog),
-  compile bs (wrap e) = inr p -> nodeleg (p_body p) -> oke true 0 (wrap e) ->
+  compile bs (wrap e) = inr p -> okdeleg (p_body p) -> oke true 0 (wrap e) ->
   forall fuel : nat, length (concat cs) < fuel ->
   forall (max_st : nat) (lim : option N) (fuelv : nat) sv,
   fst (vm_run cx p max_st lim fuelv) = RMatch sv ->
